@@ -39,3 +39,16 @@ Definition run_both_src (depth : nat) (src : str) (qs : list (str * list term * 
   | Some p => run_both depth p qs limit
   | None => otag "front-rejects" []
   end.
+
+(* all three: the compiled program, Sld.solve and the renamed-apart reference SldR.solveR (used by the C09 check on small
+   programs in which findall/3 is given a non-variable bag: there Sld.solve, which binds the caller's variable to the clause's
+   variable instead of the other way round, is no reference for the identity of the variables inside collected instances) *)
+Definition run_three (depth : nat) (p : program) (qs : list (str * list term * nat)) (limit : nat) : obs :=
+  OL (map (fun q => let '(name, args, nq) := q in
+                    OL [run_ir depth p name args nq limit; run_sld depth p name args nq limit; run_sldr depth p name args nq limit]) qs).
+
+Definition run_three_src (depth : nat) (src : str) (qs : list (str * list term * nat)) (limit : nat) : obs :=
+  match front src with
+  | Some p => run_three depth p qs limit
+  | None => otag "front-rejects" []
+  end.
